@@ -590,7 +590,10 @@ func (g *gen) behC13() M {
 			case 3:
 				m = M{"t": "S"}
 			case 4:
-				switch g.rng.Intn(5) {
+				switch g.rng.Intn(6) {
+				case 5:
+					// a message over the size limit is a foreign message as well: skipped in full, the COPY aborted
+					m = M{"t": "Big", "ty": g.pick("d", "Q", "c", "U"), "over": 1 + g.rng.Intn(3000)}
 				case 0:
 					g.id++
 					m = M{"t": "Q", "q": M{"id": g.id, "parse": "ok", "stmts": []any{M{"id": g.id, "cols": []any{}, "oids": []any{}, "prog": []any{M{"op": "complete", "tag": "X"}, M{"op": "ret", "r": "nil"}}}}}}
@@ -831,6 +834,15 @@ func (g *gen) behC10() M {
 		case 8:
 			m = M{"t": "S"}
 		default:
+			if L >= 64 && g.chance(0.5) {
+				// an oversized message arriving while a handler reads COPY data
+				g.id++
+				cid := 90 + g.id%9
+				st := M{"id": cid, "cols": g.cols(1), "oids": []any{}, "prog": []any{M{"op": "copyin", "fmt": 0}, M{"op": "copyread", "onerr": "ret"}, M{"op": "copyread", "onerr": "ret"}, M{"op": "complete", "tag": "COPY"}, M{"op": "ret", "r": "nil"}}}
+				steps = append(steps, send(M{"t": "Q", "q": M{"id": cid, "parse": "ok", "stmts": []any{st}}}), send(M{"t": "d"}),
+					send(M{"t": "Big", "ty": g.pick("d", "Q", "U"), "over": 1 + g.rng.Intn(2*L)}), send(M{"t": "c"}))
+				continue
+			}
 			m = M{"t": "H"}
 		}
 		st := send(m)
